@@ -1,0 +1,232 @@
+// SPDX-FileCopyrightText: 2026 The Pion community <https://pion.ly>
+// SPDX-License-Identifier: MIT
+
+//go:build verif && verif_c30 && !js
+
+package webrtc
+
+import (
+	"errors"
+	"io"
+
+	"github.com/pion/ice/v4"
+	"github.com/pion/logging"
+	"github.com/pion/sdp/v3"
+)
+
+// every log line is formatted (and thrown away), so that arguments of log
+// calls are evaluated and rendered as in a verbose deployment.
+var verifC30Log = logging.NewDefaultLeveledLoggerForScope("verif", logging.LogLevelTrace, io.Discard) //nolint:gochecknoglobals
+
+// This file exposes the unexported attribute walkers and receive-side entry
+// points to the verification harness (property C30). Add-only, no behaviour.
+
+// VerifC30Track is the exported image of trackDetails.
+type VerifC30Track struct {
+	Mid      string
+	Kind     int
+	StreamID string
+	ID       string
+	SSRCs    []uint32
+	RTX      int64 // -1 = nil
+	FEC      int64 // -1 = nil
+	RIDs     []string
+}
+
+func verifC30Track(t *trackDetails) VerifC30Track {
+	out := VerifC30Track{
+		Mid: t.mid, Kind: int(t.kind), StreamID: t.streamID, ID: t.id, RTX: -1, FEC: -1,
+		RIDs: append([]string{}, t.rids...),
+	}
+	for _, s := range t.ssrcs {
+		out.SSRCs = append(out.SSRCs, uint32(s))
+	}
+	if t.rtxSsrc != nil {
+		out.RTX = int64(*t.rtxSsrc)
+	}
+	if t.fecSsrc != nil {
+		out.FEC = int64(*t.fecSsrc)
+	}
+
+	return out
+}
+
+// VerifC30TrackDetailsFromSDP runs trackDetailsFromSDP.
+func VerifC30TrackDetailsFromSDP(s *sdp.SessionDescription) []VerifC30Track {
+	tracks := trackDetailsFromSDP(verifC30Log, s)
+	out := make([]VerifC30Track, 0, len(tracks))
+	for i := range tracks {
+		out = append(out, verifC30Track(&tracks[i]))
+	}
+
+	return out
+}
+
+// VerifC30Rid is the exported image of simulcastRid.
+type VerifC30Rid struct {
+	ID        string
+	AttrValue string
+	Paused    bool
+}
+
+// VerifC30GetRids runs getRids.
+func VerifC30GetRids(m *sdp.MediaDescription) []VerifC30Rid {
+	out := []VerifC30Rid{}
+	for _, r := range getRids(m) {
+		out = append(out, VerifC30Rid{ID: r.id, AttrValue: r.attrValue, Paused: r.paused})
+	}
+
+	return out
+}
+
+// VerifC30ExtractFingerprint runs extractFingerprint.
+func VerifC30ExtractFingerprint(s *sdp.SessionDescription) (string, string, error) {
+	return extractFingerprint(s)
+}
+
+// VerifC30ExtractBundleID runs extractBundleID.
+func VerifC30ExtractBundleID(s *sdp.SessionDescription) string {
+	return extractBundleID(s)
+}
+
+// VerifC30ExtractICEDetails runs extractICEDetails; it returns the
+// credentials and the number of accepted candidates.
+func VerifC30ExtractICEDetails(s *sdp.SessionDescription) (string, string, int, error) {
+	d, err := extractICEDetails(s, verifC30Log)
+	if err != nil {
+		return "", "", 0, err
+	}
+
+	return d.Ufrag, d.Password, len(d.Candidates), nil
+}
+
+// VerifC30ClassifyCandidate reports what the external candidate parser (and
+// the conversion that follows it in extractICEDetailsFromMedia) makes of one
+// a=candidate value: 0 accepted, 1 discarded with a warning, 2 error.
+func VerifC30ClassifyCandidate(value string) int {
+	cand, err := ice.UnmarshalCandidate(value)
+	if err != nil {
+		if errors.Is(err, ice.ErrUnknownCandidateTyp) || errors.Is(err, ice.ErrDetermineNetworkType) {
+			return 1
+		}
+
+		return 2
+	}
+	if _, err = newICECandidateFromICE(cand, "", 0); err != nil {
+		return 2
+	}
+
+	return 0
+}
+
+// VerifC30ReceiveParameters runs trackDetailsToRTPReceiveParameters on a
+// track with the given shape; one row per encoding: rid, ssrc, rtx, fec.
+func VerifC30ReceiveParameters(tr VerifC30Track) [][4]string {
+	td := trackDetails{mid: tr.Mid, kind: RTPCodecType(tr.Kind), streamID: tr.StreamID, id: tr.ID, rids: tr.RIDs}
+	for _, s := range tr.SSRCs {
+		td.ssrcs = append(td.ssrcs, SSRC(s))
+	}
+	if tr.RTX >= 0 {
+		v := SSRC(tr.RTX) //nolint:gosec
+		td.rtxSsrc = &v
+	}
+	if tr.FEC >= 0 {
+		v := SSRC(tr.FEC) //nolint:gosec
+		td.fecSsrc = &v
+	}
+	p := trackDetailsToRTPReceiveParameters(&td)
+	out := make([][4]string, 0, len(p.Encodings))
+	for _, e := range p.Encodings {
+		out = append(out, [4]string{
+			e.RID, verifC30Utoa(uint32(e.SSRC)), verifC30Utoa(uint32(e.RTX.SSRC)), verifC30Utoa(uint32(e.FEC.SSRC)),
+		})
+	}
+
+	return out
+}
+
+// VerifC30DescriptionIsPlanB runs descriptionIsPlanB.
+func VerifC30DescriptionIsPlanB(s *sdp.SessionDescription) bool {
+	return descriptionIsPlanB(&SessionDescription{parsed: s}, verifC30Log)
+}
+
+// VerifC30DescriptionPossiblyPlanB runs descriptionPossiblyPlanB.
+func VerifC30DescriptionPossiblyPlanB(s *sdp.SessionDescription) bool {
+	return descriptionPossiblyPlanB(&SessionDescription{parsed: s})
+}
+
+// VerifC30GetPeerDirection runs getPeerDirection.
+func VerifC30GetPeerDirection(m *sdp.MediaDescription) int {
+	return int(getPeerDirection(m))
+}
+
+// VerifC30StartRTPReceivers queues startRTPReceivers for the current remote
+// description on the operations queue, as startRTP does once the transports
+// are up. The receivers cannot open SRTP streams on an unconnected
+// PeerConnection, everything before that runs.
+func (pc *PeerConnection) VerifC30StartRTPReceivers() {
+	remote := pc.RemoteDescription()
+	if remote == nil || remote.parsed == nil {
+		return
+	}
+	current := append([]*RTPTransceiver{}, pc.GetTransceivers()...)
+	pc.ops.Enqueue(func() {
+		pc.startRTPReceivers(remote, current)
+	})
+}
+
+// VerifC30StartRTPReceiversWith runs startRTPReceivers synchronously for a
+// parsed description which is first installed as the current remote
+// description (no signalling checks).
+func (pc *PeerConnection) VerifC30StartRTPReceiversWith(s *sdp.SessionDescription, typ SDPType) {
+	d := &SessionDescription{Type: typ, parsed: s}
+	pc.mu.Lock()
+	pc.currentRemoteDescription = d
+	pc.mu.Unlock()
+	pc.startRTPReceivers(d, append([]*RTPTransceiver{}, pc.GetTransceivers()...))
+}
+
+// VerifC30HandleUndeclaredSSRC runs handleUndeclaredSSRC on a media section.
+func (pc *PeerConnection) VerifC30HandleUndeclaredSSRC(ssrc uint32, m *sdp.MediaDescription) (bool, error) {
+	return pc.handleUndeclaredSSRC(SSRC(ssrc), m)
+}
+
+func verifC30Utoa(v uint32) string {
+	if v == 0 {
+		return "0"
+	}
+	var b [10]byte
+	i := len(b)
+	for v > 0 {
+		i--
+		b[i] = byte('0' + v%10)
+		v /= 10
+	}
+
+	return string(b[i:])
+}
+
+// VerifC30ErrClass names the unexported sentinel errors the harness needs to
+// tell apart ("" = none of them).
+func VerifC30ErrClass(err error) string {
+	switch {
+	case err == nil:
+		return ""
+	case errors.Is(err, errMediaSectionHasExplictSSRCAttribute):
+		return "explicit-ssrc"
+	case errors.Is(err, errPeerConnRemoteSSRCAddTransceiver):
+		return "add-transceiver"
+	case errors.Is(err, errRTPTooShort):
+		return "rtp-too-short"
+	case errors.Is(err, ErrSessionDescriptionNoFingerprint):
+		return "no-fingerprint"
+	case errors.Is(err, ErrSessionDescriptionInvalidFingerprint):
+		return "invalid-fingerprint"
+	case errors.Is(err, ErrSessionDescriptionMissingIceUfrag):
+		return "missing-ufrag"
+	case errors.Is(err, ErrSessionDescriptionMissingIcePwd):
+		return "missing-pwd"
+	default:
+		return "other"
+	}
+}
